@@ -16,12 +16,13 @@ LEVEL = 'exploration'
 RULE = ('each case = 15-60 header-carrying calls (send_headers, push_stream) on one endpoint, about a third of them raising '
         '(validation failures after a prefix of fresh indexable fields, trailers without END_STREAM, informational with '
         'END_STREAM, server priority, bad priority values, push with invalid headers / closed or even parent / bad promised '
-        'id, closed streams), re-using 30-200 custom fields, interleaved with peer SETTINGS frames changing HEADER_TABLE_SIZE '
+        'id, closed streams; a fifth of the cases with outbound validation off, where only state errors and malformed field objects raise), '
+        're-using 30-200 custom fields (bytes and str, some with surrounding blanks or upper-case names when normalisation is on), interleaved with peer SETTINGS frames changing HEADER_TABLE_SIZE '
         '{0,1,64,4096,65536} alone or together with other settings, once or repeated; non-trivial = at least one raising call '
         'followed by successfully decoded blocks; distinct = hash of the call list')
 MINIMA = {'blocks_decoded_and_matched': 15000, 'raising_calls_judged': 6000, 'encoder_snapshots_compared': 6000,
           'table_size_changes_delivered': 1500, 'blocks_after_raising_call': 6000,
-          'blocks_spanning_continuation_frames': 300}
+          'blocks_spanning_continuation_frames': 300, 'cases_with_outbound_validation_off': 300}
 
 
 def n_cases(tier):
@@ -61,11 +62,24 @@ def enc_snapshot(c):
 
 def run_case(idx, rng, tier, rep):
     e_client = rng.random() < 0.5
-    cfg = dict(normalize_outbound_headers=rng.random() < 0.8, validate_outbound_headers=True)
+    cfg = dict(normalize_outbound_headers=rng.random() < 0.8, validate_outbound_headers=rng.random() < 0.8)
     h = scen.Hostile(e_client, cfg=cfg, keep_log=True)
     t = h.t
     h.mdec.max_allowed_table_size = 4096
+    if not cfg['validate_outbound_headers']:
+        rep.count('cases_with_outbound_validation_off')
     pool = [(b'x-f%d' % i, b'v%d' % rng.randrange(4)) for i in range(rng.choice([30, 80, 200]))]
+    if cfg['normalize_outbound_headers']:
+        # text and byte strings, some with blanks around them: the normal form is the same (stripped bytes)
+        for i in range(len(pool)):
+            r0 = rng.random()
+            n, v = pool[i]
+            if r0 < 0.12:
+                pool[i] = (n.decode(), rng.choice([' %s', '%s ', '\t%s \t', '%s']) % v.decode())
+            elif r0 < 0.2:
+                pool[i] = (n, rng.choice([b' %s', b'%s\t', b'  %s  ']) % v)
+            elif r0 < 0.26:
+                pool[i] = (rng.choice([' %s', '%s ']) % n.decode().upper(), v)
     calls = []
     tag = [0]
     st = {'alive': True, 'raised_before': False}
